@@ -15,7 +15,7 @@ for d in sorted(glob.glob(os.path.join(ROOT, "seeded", "*-*"))):
     m = re.search(r"caught by: (\[.*\]|NONE)", det)
     caught = ast.literal_eval(m.group(1)) if m and m.group(1) != "NONE" else []
     rules = sorted(set(re.findall(r"^    (C\d\d\.\S+) ", det, re.M)))
-    meta = dict(id=n, property=n.split("-")[0], round={"A": 1, "B": 1, "C": 2, "D": 2, "E": 3, "F": 3, "G": 4, "H": 4, "I": 5, "J": 5, "K": 6, "L": 6, "M": 7, "N": 7, "O": 8, "P": 8}.get(n[-1], 0),
+    meta = dict(id=n, property=n.split("-")[0], round={"A": 1, "B": 1, "C": 2, "D": 2, "E": 3, "F": 3, "G": 4, "H": 4, "I": 5, "J": 5, "K": 6, "L": 6, "M": 7, "N": 7, "O": 8, "P": 8, "Q": 9, "R": 9}.get(n[-1], 0),
                 summary=a.get("summary", ""), needs_to_manifest=a.get("needs_to_manifest", ""), files_changed=a.get("files_changed", []),
                 base_commit=("1042e09" if n[-1] in "ABCD" else "3a99f4a" if n[-1] in "EF" else "3920d20") + " (the /repo commit the sub-agent's worktree was at)",
                 confirmed="CONFIRMED" in ver,
